@@ -6433,6 +6433,19 @@ impl Nudge {
         use crate::util::libm::Float;
 
         assert!(smallest >= Unit::Day);
+        // When rounding to weeks below months or years, the balanced span
+        // carries its whole weeks in its days. Count them, so that the
+        // window built below is the week that holds the end of the span
+        // (and not the first week scaled up, which is a different length
+        // when a time zone transition falls into only one of them).
+        let balanced = if smallest == Unit::Week {
+            let days = balanced.get_days();
+            balanced
+                .try_weeks(i64::from(balanced.get_weeks()) + i64::from(days / 7))?
+                .try_days(days % 7)?
+        } else {
+            balanced
+        };
         let sign = balanced.get_sign_ranged();
         let truncated = increment
             * balanced.get_units_ranged(smallest).div_ceil(increment);
